@@ -58,6 +58,13 @@ def TokenTexts(toks, str_fill=None):
   out = []
   slot = 0
   for t in toks:
+    if t['k'] == 'strcut':      # LSyntaxCorrupt!CutString: no closing quote
+      form = t['t']
+      lit = StrLiteral(form, DEFAULT_STR[slot % len(DEFAULT_STR)]
+                       if form in ('dq', 'sq', 'tq') else None)
+      slot += 1 if form in ('dq', 'sq', 'tq') else 0
+      out.append(lit[:-3] if form == 'tq' else lit[:-1])
+      continue
     if t['k'] == 'str':
       if t['t'] in ('dq', 'sq', 'tq'):
         content = DEFAULT_STR[slot % len(DEFAULT_STR)]
@@ -387,3 +394,95 @@ def ForTlc(p):
           'H': [Cps(h) for h in p['H']],
           'spans': [[s[0], s[1], s[2], Cps(s[3])] for s in p['spans']],
           'lits': [[l[0], l[1], l[2], Cps(l[3])] for l in p['lits']]}
+
+
+# ---- differential parsing for C06 ----------------------------------------------
+
+
+class _TruthyDict(dict):
+  """parse.ParseFile replaces a falsy parsed_imports by a fresh dict; a truthy
+  empty one lets the caller see which rules came from imported files."""
+
+  def __bool__(self):
+    return True
+
+
+def ParseDifferential(text, import_root=None):
+  """Parses with PY and CPP.  Returns {'py': R, 'cpp': R, 'main_count': k} with
+  R = ('ok', [projected rule, heritage texts kept]) | ('rej', cls, msg) and
+  k = number of main-file rules in the PY result (None if unknown)."""
+  from harness import impl
+  parse = impl.Mods()['parse']
+  res = {'main_count': None}
+  for mode in ('PY', 'CPP'):
+    os.environ['LOGICA_PARSER'] = mode
+    try:
+      if mode == 'PY':
+        imports = _TruthyDict()
+        try:
+          rules = parse.ParseFile(text, import_root=import_root,
+                                  parsed_imports=imports)['rule']
+          imported = sum(len(i['rule']) for i in imports.values() if i)
+          res['main_count'] = len(rules) - imported
+        except TypeError:
+          rules = parse.ParseFile(text, import_root=import_root)['rule']
+      else:
+        rules = parse.ParseFile(text, import_root=import_root)['rule']
+      res[mode.lower()] = ('ok', ProjectTree(rules, True))
+    except BaseException as e:  # pylint: disable=broad-except
+      if isinstance(e, KeyboardInterrupt):
+        raise
+      res[mode.lower()] = ('rej', type(e).__name__, str(e)[:300])
+  os.environ['LOGICA_PARSER'] = 'PY'
+  return res
+
+
+def FirstDifference(a, b, path=''):
+  if type(a) != type(b):
+    return path, a, b
+  if isinstance(a, dict):
+    for k in sorted(set(a) | set(b)):
+      if k not in a or k not in b:
+        return path + '/' + k, a.get(k, '<absent>'), b.get(k, '<absent>')
+      d = FirstDifference(a[k], b[k], path + '/' + k)
+      if d:
+        return d
+    return None
+  if isinstance(a, list):
+    if len(a) != len(b):
+      return path + '#len', len(a), len(b)
+    for i, (x, y) in enumerate(zip(a, b)):
+      d = FirstDifference(x, y, '%s/%d' % (path, i))
+      if d:
+        return d
+    return None
+  return None if a == b else (path, a, b)
+
+
+def CompareParsers(res):
+  """The C06 relation on one text.  Returns None when the parsers agree,
+  else {'kind': 'accept'|'main'|'imported', ...}."""
+  py, cpp = res['py'], res['cpp']
+  if py[0] != cpp[0]:
+    return {'kind': 'accept', 'py': py[0], 'cpp': cpp[0],
+            'py_cls': py[1] if py[0] == 'rej' else '',
+            'py_msg': py[2] if py[0] == 'rej' else '',
+            'cpp_msg': cpp[2] if cpp[0] == 'rej' else ''}
+  if py[0] == 'rej':
+    return None
+  a, b = py[1], cpp[1]
+  if a == b:
+    return None
+  k = res['main_count']
+  if k is None:
+    k = len(a)
+  if a[:k] != b[:k]:
+    d = FirstDifference(a[:k], b[:k])
+    return {'kind': 'main', 'path': d[0], 'py_value': str(d[1])[:200],
+            'cpp_value': str(d[2])[:200]}
+  def Bag(rs):
+    return sorted(json.dumps(r, sort_keys=True) for r in rs)
+  if Bag(a[k:]) != Bag(b[k:]):
+    return {'kind': 'imported', 'path': '', 'py_value': str(len(a) - k),
+            'cpp_value': str(len(b) - k)}
+  return None
